@@ -7,16 +7,10 @@ import (
 	"github.com/golang/geo/s2"
 )
 
-func ll(a, b float64) s2.Point { return s2.PointFromLatLng(s2.LatLngFromDegrees(a, b)) }
 func main() {
-	idx := s2.NewShapeIndex()
-	pl := s2.Polyline{ll(0, 0), ll(0, 10)}
-	idx.Add(&pl)
-	tidx := s2.NewShapeIndex()
-	tp := s2.Polyline{ll(-1, 1), ll(1, 2), ll(-1, 3), ll(1, 4)}
-	tidx.Add(&tp)
-	for _, me := range []float64{0, 0.01} {
-		q := s2.NewClosestEdgeQuery(idx, s2.NewClosestEdgeQueryOptions().MaxError(s1.ChordAngleFromAngle(s1.Angle(me))))
-		fmt.Println(me, float64(q.Distance(s2.NewMinDistanceToShapeIndexTarget(tidx))))
-	}
+	c := s2.PointFromCoords(0.3, 0.5, -0.8)
+	a := s2.RegularLoop(c, s1.Angle(30*s1.Degree), 40)
+	b := s2.RegularLoop(c, s1.Angle(5*s1.Degree), 40)
+	fmt.Println("A.Contains(B):", a.Contains(b), " B.Contains(A):", b.Contains(a), " A.Intersects(B):", a.Intersects(b))
+	fmt.Println(s2.TurnAngle(s2.PointFromCoords(1, 0, 0), s2.PointFromCoords(1, 0, 1e-300), s2.PointFromCoords(1, 1e-300, -1e-300)), s2.TurnAngle(s2.PointFromCoords(1, 1e-300, -1e-300), s2.PointFromCoords(1, 0, 1e-300), s2.PointFromCoords(1, 0, 0)))
 }
